@@ -97,6 +97,10 @@ pub fn run_client(ctx: &Ctx, proto: Proto, key: Option<(&[u8], KeyEnc)>, mode: M
         }
         _ => {}
     }
+    if let Some(k) = extra.iter().find_map(|e| e.strip_prefix("rawkey=")) {
+        args.push("-k".into());
+        args.push(k.to_string());
+    }
     match mode {
         Mode::Json => args.push("-j".into()),
         Mode::Verbose => args.push("-v".into()),
@@ -266,9 +270,30 @@ pub enum Forgery {
     RootShortenedResigned,
     WindowEmptyResigned,
     WindowEdgeMissResigned,
+    /// SIG replaced by the non-canonical (R, S + L) form of the genuine signature
+    SigSPlusL,
+    /// the same for CERT.SIG
+    CertSigSPlusL,
 }
 
-pub const ALL_FORGERIES: [Forgery; 31] = [
+/// (R, S) -> (R, S + L): verifies under cofactorless "legacy" arithmetic, not under RFC 8032
+fn s_plus_l(sig: &mut [u8]) -> bool {
+    const L: [u8; 32] = [0xed, 0xd3, 0xf5, 0x5c, 0x1a, 0x63, 0x12, 0x58, 0xd6, 0x9c, 0xf7, 0xa2, 0xde, 0xf9, 0xde, 0x14, 0, 0, 0, 0, 0, 0, 0, 0, 0, 0, 0, 0, 0, 0, 0, 0x10];
+    if sig.len() != 64 {
+        return false;
+    }
+    let mut carry = 0u16;
+    for i in 0..32 {
+        let v = sig[32 + i] as u16 + L[i] as u16 + carry;
+        sig[32 + i] = v as u8;
+        carry = v >> 8;
+    }
+    carry == 0
+}
+
+pub const ALL_FORGERIES: [Forgery; 33] = [
+    Forgery::SigSPlusL,
+    Forgery::CertSigSPlusL,
     Forgery::SigFlip,
     Forgery::PathFlip,
     Forgery::PathAppend,
@@ -541,6 +566,18 @@ impl<'a> Forger<'a> {
                 parts.resign_dele(&self.srv.lt(), p);
                 (parts.assemble(), format!("MIDP {} one unit outside the correctly signed window [{}, {}]", b.midp, mint, maxt))
             }
+            Forgery::SigSPlusL => {
+                if !s_plus_l(&mut parts.sig) {
+                    return None;
+                }
+                (parts.assemble(), "SIG = (R, S + L) of the genuine signature".into())
+            }
+            Forgery::CertSigSPlusL => {
+                if !s_plus_l(&mut parts.cert_sig) {
+                    return None;
+                }
+                (parts.assemble(), "CERT.SIG = (R, S + L) of the genuine signature".into())
+            }
             Forgery::FrameLengthOff => {
                 if p != Proto::Ietf {
                     return None;
@@ -735,6 +772,59 @@ pub fn run_c01(ctx: &Ctx, out: &mut Out) {
             break;
         }
     }
+    // a key was GIVEN but in a spelling the client cannot read (or of the wrong length): whatever
+    // it does with it, it must not report a response re-signed by another key as good
+    if only_op.is_none() {
+        let kinds: [(&str, String); 8] = [
+            ("base64-unpadded", b64(&pk).trim_end_matches('=').to_string()),
+            ("base64url", b64(&pk).replace('+', "-").replace('/', "_")),
+            ("hex-0x-prefixed", format!("0x{}", hex(&pk))),
+            ("hex-31-bytes", hex(&pk[..31])),
+            ("hex-33-bytes", format!("{}00", hex(&pk))),
+            ("hex-with-colons", pk.iter().map(|b| format!("{:02x}", b)).collect::<Vec<_>>().join(":")),
+            ("base64-of-hex-text", b64(hex(&pk).as_bytes())),
+            ("hex-odd-length", hex(&pk)[..63].to_string()),
+        ];
+        for (ki, (kind, text)) in kinds.iter().enumerate() {
+            for proto in [Proto::Classic, Proto::Ietf] {
+                if (ki as u64 + ctx.shard) % 2 != 0 && !ctx.thorough {
+                    continue;
+                }
+                // readable after all (e.g. base64url without '-' or '_'): an ordinary keyed run
+                let readable = crate::prng::unhex(text).map(|k| k == pk).unwrap_or(false) || *text == b64(&pk);
+                let forger = Forger { srv: &srv, evil: &evil, proto, earlier_genuine: vec![] };
+                let mut rr = Rng::new(rng.next_u64());
+                let rk = format!("rawkey={}", text);
+                let res = run_client(ctx, proto, None, Mode::Json, 1, &[&rk], &mut |cr| {
+                    let b = batch_for(&mut rr, proto);
+                    forger.forge(Forgery::OtherLongTermKeyFullChain, cr, &b, &mut rr).map(|x| x.0)
+                });
+                let Ok(run) = res else {
+                    out.inconclusive("client run failed");
+                    continue;
+                };
+                if run.watchdog {
+                    out.inconclusive("client watchdog expired");
+                    continue;
+                }
+                out.obs("unreadable_key_runs", 1);
+                out.case(fnv64(format!("rawkey{}{:?}{}", kind, proto, text).as_bytes()), true);
+                if readable {
+                    out.obs("unreadable_key_kind_was_readable", 1);
+                }
+                if !run.times.is_empty() || run.exit == Some(0) {
+                    out.violation(
+                        &format!("C01 client accept OtherLongTermKeyFullChain key-given-as={}", kind),
+                        &format!("-k {:?}: the client printed {:?} and exited {:?} for a response signed by a different long-term key", text, run.times, run.exit),
+                        trial_json(&run, Some(0), "OtherLongTermKeyFullChain", kind),
+                    );
+                } else {
+                    out.obs(if run.requests.is_empty() { "unreadable_key_refused_at_startup" } else { "unreadable_key_response_rejected" }, 1);
+                }
+            }
+        }
+    }
+    out.floor("unreadable_key_runs", 4);
     out.floor("unauthentic_responses_delivered", 300);
     out.floor("nonces_seen", 400);
     out.floor("op_OtherLongTermKeyFullChain_classic", 1);
@@ -783,6 +873,120 @@ fn civil_iso(secs: i64) -> String {
     // chrono's %Y gives years beyond 9999 an explicit sign
     let year = if p[2].len() > 4 { format!("+{}", p[2]) } else { format!("{:0>4}", p[2]) };
     format!("W={}-{:02}-{}T{}", year, m, p[1], p[3])
+}
+
+/// days since the epoch of the n-th (1-based; 0 = last) Sunday of a month
+fn nth_sunday(year: i64, month: i64, n: i64) -> i64 {
+    let days_from_civil = |y: i64, m: i64, d: i64| -> i64 {
+        let y = if m <= 2 { y - 1 } else { y };
+        let era = y.div_euclid(400);
+        let yoe = y.rem_euclid(400);
+        let mp = (m + 9) % 12;
+        let doy = (153 * mp + 2) / 5 + d - 1;
+        let doe = yoe * 365 + yoe / 4 - yoe / 100 + doy;
+        era * 146097 + doe - 719468
+    };
+    let first = days_from_civil(year, month, 1);
+    // 1970-01-01 was a Thursday (weekday 4 with Sunday = 0)
+    let wd = (first + 4).rem_euclid(7);
+    let first_sunday = first + (7 - wd) % 7;
+    if n > 0 {
+        first_sunday + 7 * (n - 1)
+    } else {
+        let next_first = if month == 12 { days_from_civil(year + 1, 1, 1) } else { days_from_civil(year, month + 1, 1) };
+        let mut d = first_sunday;
+        while d + 7 < next_first {
+            d += 7;
+        }
+        d
+    }
+}
+
+/// the local wall-clock rendering of an instant according to the C library (GNU date under TZ):
+/// an oracle for local-time output that shares nothing with chrono
+fn date_oracle(zone: &str, secs: u64) -> Option<String> {
+    let o = Command::new("date").env("TZ", zone).arg("-d").arg(format!("@{}", secs)).arg("+W=%Y-%m-%dT%H:%M:%S").output().ok()?;
+    if !o.status.success() {
+        return None;
+    }
+    Some(String::from_utf8_lossy(&o.stdout).trim().to_string())
+}
+
+/// honest responses whose midpoints lie around daylight-saving transitions (and anywhere in
+/// 1971..2037), printed as local wall-clock time in zones whose offset changes over the year
+fn dst_local_time_runs(ctx: &Ctx, out: &mut Out, rng: &mut Rng, srv: &RefServer, evil: &RefServer, pk: &[u8]) {
+    if date_oracle("UTC", 0).as_deref() != Some("W=1970-01-01T00:00:00") {
+        out.note("GNU date not usable as local-time oracle: DST runs skipped");
+        return;
+    }
+    let runs = ctx.share(640, 6_400);
+    for k in 0..runs {
+        let zone = *rng.pick(&["America/New_York", "Europe/Berlin", "Australia/Lord_Howe", "America/Santiago", "Europe/London"]);
+        let proto = if k % 2 == 0 { Proto::Classic } else { Proto::Ietf };
+        let year = rng.range(2008, 2037) as i64;
+        // transition instants (UTC) of the current rules of the two best-known zones
+        let trans: Vec<i64> = match zone {
+            "America/New_York" => vec![nth_sunday(year, 3, 2) * 86400 + 7 * 3600, nth_sunday(year, 11, 1) * 86400 + 6 * 3600],
+            "Europe/Berlin" | "Europe/London" => vec![nth_sunday(year, 3, 0) * 86400 + 3600, nth_sunday(year, 10, 0) * 86400 + 3600],
+            _ => vec![],
+        };
+        let n = rng.range(1, 3) as usize;
+        let mut batches: Vec<Batch> = Vec::new();
+        for _ in 0..n {
+            let secs = if !trans.is_empty() && rng.chance(2, 3) {
+                (*rng.pick(&trans) + *rng.pick(&[-7200i64, -3601, -3600, -1800, -1, 0, 1, 1799, 1800, 3599, 3600, 3601, 7199, 7200])) as u64
+            } else {
+                rng.range(31_536_000, 2_145_916_800)
+            };
+            let midp = if proto == Proto::Classic { secs * 1_000_000 + rng.below(1_000_000) } else { secs };
+            batches.push(Batch { size: 1, index: 0, midp, radi: if proto == Proto::Classic { 5_000_000 } else { 5 }, mint: 0, maxt: u64::MAX });
+        }
+        let forger = Forger { srv, evil, proto, earlier_genuine: vec![] };
+        let mut rr = Rng::new(rng.next_u64());
+        let enc = *rng.pick(&[KeyEnc::None, KeyEnc::Hex, KeyEnc::B64]);
+        let key = if enc == KeyEnc::None { None } else { Some((pk, enc)) };
+        let tz = format!("tz={}", zone);
+        let res = run_client(ctx, proto, key, Mode::Plain, n, &[&tz, "wall"], &mut |cr| Some(forger.honest(cr, &batches[cr.index], &mut rr).assemble()));
+        let Ok(run) = res else {
+            out.inconclusive("client run failed");
+            continue;
+        };
+        if run.watchdog || run.requests.len() != n {
+            out.inconclusive("client watchdog / missing requests");
+            continue;
+        }
+        out.obs("dst_zone_runs", 1);
+        out.obs(&format!("dst_zone_runs_{}", zone), 1);
+        out.case(fnv64(format!("dst{}{:?}{}", zone, proto, batches[0].midp).as_bytes()), true);
+        let desc = trial_json(&run, None, "dst-local-time", zone);
+        if run.exit != Some(0) || run.times.len() != n {
+            let panicked = run.stderr.contains("panicked");
+            out.violation(
+                &format!("C03 client reject honest proto={} origin=reference-responder-dst-zone why={}", proto.name(), if panicked { "panic" } else { "no-panic" }),
+                &format!("TZ={}: honest response(s) with midpoints {:?} not accepted: exit {:?}, {} of {} times printed; {}", zone, batches.iter().map(|b| b.midp).collect::<Vec<_>>(), run.exit, run.times.len(), n, run.stderr.lines().filter(|l| l.contains("panicked") || l.contains("called `")).take(2).collect::<Vec<_>>().join(" / ")),
+                desc,
+            );
+            continue;
+        }
+        for (i, (t, _)) in run.times.iter().enumerate() {
+            let secs = if proto == Proto::Classic { batches[i].midp / 1_000_000 } else { batches[i].midp };
+            let Some(want) = date_oracle(zone, secs) else {
+                out.inconclusive("date oracle failed");
+                continue;
+            };
+            out.obs("dst_times_compared", 1);
+            if trans.iter().any(|tr| (secs as i64 - tr).abs() <= 7200) {
+                out.obs("dst_times_within_2h_of_a_transition", 1);
+            }
+            if *t != want {
+                out.violation(
+                    &format!("C03 client prints-wrong-time proto={} origin=reference-responder-dst-zone", proto.name()),
+                    &format!("TZ={}: signed midpoint {} s should print as {:?} (C library), client printed {:?}", zone, secs, want, t),
+                    trial_json(&run, None, "dst-local-time", zone),
+                );
+            }
+        }
+    }
 }
 
 pub fn run_c03(ctx: &Ctx, out: &mut Out) {
@@ -911,6 +1115,8 @@ pub fn run_c03(ctx: &Ctx, out: &mut Out) {
             break;
         }
     }
+    // (a2) local wall-clock output in zones with daylight-saving time, judged by the C library
+    dst_local_time_runs(ctx, out, &mut rng, &srv, &evil, &pk);
     // (b) the real server binary, client with -n 1..64 so replies come from real batches
     real_server_part(ctx, out, &mut rng);
     out.floor("honest_classic_keyNone", 20);
@@ -918,6 +1124,10 @@ pub fn run_c03(ctx: &Ctx, out: &mut Out) {
     out.floor("honest_ietf_keyB64", 20);
     out.floor("times_compared", 500);
     out.floor("local_time_runs", 50);
+    if date_oracle("UTC", 0).is_some() {
+        out.floor("dst_times_compared", 100);
+        out.floor("dst_times_within_2h_of_a_transition", 20);
+    }
     out.floor("real_server_client_runs", 8);
     out.floor("real_server_times_checked", 100);
 }
